@@ -23,6 +23,9 @@ import (
 	"github.com/WICG/webpackage/go/zz_verif/rbundle"
 )
 
+var sharedSink = &gen.RecWriter{}
+var sharedCW = bundle.NewCountingWriter(sharedSink)
+
 func main() { mon.Main("C04", run) }
 
 func run(r *mon.Run) {
@@ -79,8 +82,8 @@ func run(r *mon.Run) {
 			r.Count("failing-write-before-valid-write")
 		}
 		var outputs [][]byte
-		for _, dest := range []string{"plain", "readerfrom", "file"} {
-			if dest == "file" && i%8 != 0 {
+		for _, dest := range []string{"plain", "readerfrom", "file", "counting", "appended"} {
+			if dest == "file" && i%8 != 0 || dest == "counting" && i%4 != 1 || dest == "appended" && i%4 != 3 {
 				continue
 			}
 			var got []byte
@@ -103,6 +106,30 @@ func run(r *mon.Run) {
 					err = fmt.Errorf("panic: %v", pv)
 				}
 				got, recv = w.Buf, len(w.Buf)
+			case "counting":
+				// one exported bundle.CountingWriter that the caller keeps for everything it writes (it has counted
+				// the earlier outputs already)
+				mark := len(sharedSink.Buf)
+				p, pv := r.Call(id, nil, func() { cnt, err = b.WriteTo(sharedCW) })
+				if p {
+					err = fmt.Errorf("panic: %v", pv)
+				}
+				got = append([]byte{}, sharedSink.Buf[mark:]...)
+				recv = len(got)
+				if len(sharedSink.Buf) > 1<<20 {
+					sharedSink.Buf = sharedSink.Buf[:0]
+				}
+			case "appended":
+				// a destination that already holds data (a bytes.Buffer with an earlier output in it)
+				var w bytes.Buffer
+				w.Write(bytes.Repeat([]byte{0xEE}, 1+i%700))
+				mark := w.Len()
+				p, pv := r.Call(id, nil, func() { cnt, err = b.WriteTo(&w) })
+				if p {
+					err = fmt.Errorf("panic: %v", pv)
+				}
+				got = append([]byte{}, w.Bytes()[mark:]...)
+				recv = len(got)
 			case "file":
 				path := filepath.Join(scratch, fmt.Sprintf("c04-%d.wbn", r.Shard))
 				f, ferr := os.Create(path)
